@@ -244,9 +244,8 @@ pub fn run(ctx: &Ctx, st: &mut Stats) {
             }
         };
         let (a, b) = (mk(rng), mk(rng));
-        for c in [a, b, a] {
-            st.eval_h(mix(c.hash(c.k as u64 + 9), i as u64), &c, check);
-        }
+        st.eval_hist(mix(a.hash(a.k as u64 + 9), b.hash(b.k as u64 + 11)), vec![a, b, a], check);
+        let _ = i;
     });
     cold_threads(st, "history: first call on a fresh thread", {
         let mut v = vec![];
